@@ -70,15 +70,23 @@ def run_case(case):
                 if leaf["r"] in ("value",) and (0, path, 0) not in fb.truth:
                     fb.put(0, path, product.typical_value(leaf, (case["seed"], "TRL", path), tables))
             want_imgs = []
+            import numpy as np
+
+            uniform = all(n % 4 == 0 for n in p["lens"])
             for i in range(p["nlow"]):
                 n = p["lens"][i]
-                pix = n // 4
+                if uniform:
+                    bps, lines = 2, 2
+                else:   # sample sizes of 1, 2 and 4 bytes mixed in one trailer
+                    bps, lines = (4 if n % 4 == 0 else 2 if n % 2 == 0 else 1), 1
+                pix = n // (bps * lines)
                 fb.put(0, f"low_resolution_image_sizes[{i}].number_of_pixels", pix)
-                fb.put(0, f"low_resolution_image_sizes[{i}].number_of_lines", 2)
-                fb.put(0, f"low_resolution_image_sizes[{i}].number_of_bytes_per_one_sample", 2)
-                words = [(case["seed"] * 31 + i * 1000 + k) % 30000 + 1 for k in range(n // 2)]
-                fb.put(1 + i, "image", struct.pack(f">{len(words)}h", *words))
-                want_imgs.append((pix, 2, words))
+                fb.put(0, f"low_resolution_image_sizes[{i}].number_of_lines", lines)
+                fb.put(0, f"low_resolution_image_sizes[{i}].number_of_bytes_per_one_sample", bps)
+                raw = bytes(((case["seed"] * 31 + i * 97 + k * 7) % 250) + 1 for k in range(n))
+                fb.put(1 + i, "image", raw)
+                words = [int(x) for x in np.frombuffer(raw, f">i{bps}")]
+                want_imgs.append((pix, lines, words))
             # the file object: in memory, or a raw stream that hands out at most 4096 bytes per call (an unbuffered pipe / socket, a
             # streamed HTTP body: reads may legally come up short), bare or behind a BufferedReader
             class Dribble(io.RawIOBase):
@@ -95,9 +103,15 @@ def run_case(case):
                     return n
 
             data = fb.bytes()
+            lead = 0
+            if case["seed"] % 4 == 3:   # the trailer does not start at position 0 of the stream it is read from (a member of a tape image / tar read in place)
+                lead = 512 + case["seed"] % 7
+                data = bytes((k * 13) % 251 for k in range(lead)) + data
             how = case["seed"] % 3
             fobj = io.BytesIO(data) if how == 0 else Dribble(data) if how == 1 else io.BufferedReader(Dribble(data), buffer_size=1024)
-            res["stream"] = ("BytesIO", "raw stream (<= 4096 bytes per read)", "BufferedReader over a raw stream")[how]
+            if lead:
+                fobj.seek(lead) if how == 0 else fobj.read(lead)
+            res["stream"] = ("BytesIO", "raw stream (<= 4096 bytes per read)", "BufferedReader over a raw stream")[how] + (f", trailer at offset {lead}" if lead else "")
             out = impl(read_sar_trailer, fobj)
             if out is None:
                 return res
